@@ -25,6 +25,13 @@ import vf
 SPECDIR = os.path.join(vf.SPEC, "dns")
 ASAN_ENV = {"ASAN_OPTIONS": "detect_leaks=0:abort_on_error=0:allocator_may_return_null=1",
             "UBSAN_OPTIONS": "print_stacktrace=1"}
+CHAIN_DEPTHS = [1, 2, 9, 10, 11, 12, 63, 126]        # pointers followed for one name (126: the deepest a legal name can need)
+REC_CHAIN_DEPTHS = [1, 2, 9, 10, 11, 12, 25, 40]      # records whose owner names chain (deep subdomain tree)
+# the Abs walk of a 254-cell chain layout recurses ~400 deep: TLC worker threads need a larger stack (replaces the
+# JAVA_TOOL_OPTIONS vf.run_tlc would set, so library path and queue are repeated here)
+DEEP_JOPTS = "-Xss64m -Xmx3g -DTLA-Library=%s" % os.pathsep.join([os.path.join(vf.SPEC, "common"), SPECDIR])
+DEEP_ENV = {"JAVA_TOOL_OPTIONS": DEEP_JOPTS}
+DEEP_ENV_VAL = {"JAVA_TOOL_OPTIONS": DEEP_JOPTS + " -Dtlc2.tool.queue.IStateQueue=StateDeque"}
 NAME_ACTIONS = ["OffEnd", "PtrTruncated", "PtrRange", "PtrLoop", "PtrFollow", "EndOfName", "LabelTooLong",
                 "LabelTruncated", "Label"]
 CACHE_ACTIONS = ["Put", "PutNeg", "GetHit", "GetMiss", "Remove", "Clear", "Advance"]
@@ -52,7 +59,7 @@ def account(ck, r, prefix):
         ck.cov[prefix + a] = ck.cov.get(prefix + a, 0) + gn
 
 
-def validate_sharded(ck, spec, trace_path, nshards, by_reset=False):
+def validate_sharded(ck, spec, trace_path, nshards, by_reset=False, env=None):
     """validate an ndjson trace with `nshards` TLC processes; returns (bad_lines, dev_list[(name, line)]) with global
     1-based line numbers.  The oracles report disallowed events as BAD/DEV lines instead of stopping, so a shard that
     is not consumed completely is an infrastructure problem (unknown event / evaluation error)."""
@@ -79,7 +86,7 @@ def validate_sharded(ck, spec, trace_path, nshards, by_reset=False):
     cfg = os.path.join(SPECDIR, spec + ".cfg")
 
     def go(job):
-        return job, vf.validate_trace(mod, cfg, job[0], tag="C19_val", xmx="3g")
+        return job, vf.validate_trace(mod, cfg, job[0], tag="C19_val", xmx="3g", env=env)
     with cf.ThreadPoolExecutor(max_workers=min(8, len(jobs))) as ex:
         res = list(ex.map(go, jobs))
     bad, dev, wall = [], [], 0.0
@@ -141,7 +148,8 @@ def self_test_corrupt(ck, spec, lines, mutate, what, flagged=()):
     chunk = lines[lo:idx] + [newline]
     p = os.path.join(ck.work, "selftest_%s.ndjson" % spec)
     open(p, "w").write("\n".join(chunk) + "\n")
-    v = vf.validate_trace(os.path.join(SPECDIR, spec + ".tla"), os.path.join(SPECDIR, spec + ".cfg"), p, tag="C19_self")
+    v = vf.validate_trace(os.path.join(SPECDIR, spec + ".tla"), os.path.join(SPECDIR, spec + ".cfg"), p, tag="C19_self",
+                          env=DEEP_ENV_VAL if spec == "DnsNameTrace" else None)
     if v.error:
         raise vf.Infra("self-test (%s): %s" % (what, v.error))
     bad = [int(x) for x in re.findall(r'<<"BAD", (\d+)>>', v.out)] + [int(x) for x in re.findall(r'<<"DEV", "\w+", (\d+)>>', v.out)]
@@ -150,10 +158,16 @@ def self_test_corrupt(ck, spec, lines, mutate, what, flagged=()):
 
 
 # ------------------------------------------------------------------------------------------------ names
-def name_cfg(ck, name, n, devs=()):
+def name_line(c):
+    return "%d %d %s" % (c["cut"], c["start"], " ".join(map(str, c["cells"])))
+
+
+def name_cfg(ck, name, n, devs=(), chain=False):
     p = os.path.join(ck.work, name + ".cfg")
-    consts = {"N": n, "Cuts": "{0, 1}", "NameLimit": 254, "Dev_NoVisited": "Dev_NoVisited" in devs,
-              "Dev_PtrBoundOffByOne": "Dev_PtrBoundOffByOne" in devs}
+    consts = {"Family": '"chain"' if chain else '"all"', "N": n, "Cuts": "{0}" if chain else "{0, 1}",
+              "Depths": "{%s}" % ", ".join(map(str, CHAIN_DEPTHS)) if chain else "{}", "NameLimit": 254,
+              "Dev_NoVisited": "Dev_NoVisited" in devs, "Dev_PtrBoundOffByOne": "Dev_PtrBoundOffByOne" in devs,
+              "Dev_MaxPointerJumps": "Dev_MaxPointerJumps" in devs}
     vf.write_cfg(p, constants=consts, invariants=["Refines", "Terminates"] + ([] if devs else ["Emit"]))
     return p
 
@@ -170,24 +184,41 @@ def part_names(ck, thorough, tlc_results):
     for a in NAME_ACTIONS:
         if ck.cov.get("Name." + a, 0) == 0:
             raise vf.Infra("self-test: DnsName action %s never taken" % a)
-    for dev, exp in (("Dev_NoVisited", ("Terminates", "Refines")), ("Dev_PtrBoundOffByOne", ("Refines",))):
+    for dev, exp in (("Dev_NoVisited", ("Terminates", "Refines")), ("Dev_PtrBoundOffByOne", ("Refines",)),
+                     ("Dev_MaxPointerJumps", ("Refines",))):
         d = tlc_results[dev]
         if d.violated not in exp:
             raise vf.Infra("self-test: DnsName with %s should violate %s, got %r %s" % (dev, exp, d.violated, d.error))
-    cases = tlc_json_prints(r)
-    cases.sort(key=lambda c: (c["cut"], c["cells"]))
+    rc = tlc_results["name_chain"]
+    if rc.error:
+        raise vf.Infra("TLC DnsName (chain family): " + rc.error)
+    if rc.violated:
+        rp = ck.save_replay("name_impl_spec_chain", {"tlc.out": rc.out[-20000:]})
+        ck.violation("DnsName.tla (chain family) violates %s" % rc.violated, rp)
+        return
+    ck.states += rc.distinct
+    ck.transitions += rc.generated
+    chains = tlc_json_prints(rc)
+    # the depth family: every depth, open (well-formed, exactly k jumps) and closed into a loop
+    for k in CHAIN_DEPTHS:
+        if not any(c["cls"] == "wf" and c["jumps"] == k and len(c["name"]) == k + 1 for c in chains) or \
+           not any(c["cls"] == "loop" and len(c["cells"]) == 2 * k + 2 for c in chains):
+            raise vf.Infra("chain family: depth %d missing (open well-formed chain / closed loop)" % k)
+    cases = tlc_json_prints(r) + chains
+    cases.sort(key=lambda c: (len(c["cells"]) > 9, c["cut"], c["cells"]))
     classes = Counter(c["cls"] for c in cases)
-    ck.note("DnsName: %s; %d layouts; Abs classes %s" % (r.summary(), len(cases), dict(classes)))
+    ck.note("DnsName: %s; %d layouts (%d of the chain family, depths %s); Abs classes %s" % (
+        r.summary(), len(cases), len(chains), CHAIN_DEPTHS, dict(classes)))
     for k in ("wf", "fwd", "loop", "range", "mal"):
         if classes.get(k, 0) == 0:
             raise vf.Infra("generator produced no layout of class " + k)
     cp = os.path.join(ck.work, "name_cases.txt")
     with open(cp, "w") as f:
         for c in cases:
-            f.write("%d %s\n" % (c["cut"], " ".join(map(str, c["cells"]))))
+            f.write(name_line(c) + "\n")
     outp = os.path.join(ck.work, "name.ndjson")
     ck.note("drv_dns.asan name: " + run_drv("drv_dns.asan", "name", cp, outp, 8))
-    lines, bad, dev = validate_sharded(ck, "DnsNameTrace", outp, 8)
+    lines, bad, dev = validate_sharded(ck, "DnsNameTrace", outp, 8, env=DEEP_ENV_VAL)
     if len(lines) != len(cases):
         raise vf.Infra("name mode: %d events for %d cases" % (len(lines), len(cases)))
     ck.evaluations += len(cases)
@@ -208,6 +239,8 @@ def part_names(ck, thorough, tlc_results):
     ck.nontrivial += nontrivial
     ck.note("names: %d layouts decoded by the real code, results differing from the Impl prediction: %d" % (len(cases), drift))
     ck.sample({"kind": "name layout", "case": cases[len(cases) // 3], "event": json.loads(lines[len(cases) // 3])})
+    deep = next(i for i, c in enumerate(cases) if c["cls"] == "wf" and c["jumps"] == 12)
+    ck.sample({"kind": "compression chain 12 pointers deep", "case": cases[deep], "event": json.loads(lines[deep])})
     # oracle self-tests
     def corrupt_loop(ls, fl):
         for i, c in enumerate(cases):
@@ -227,20 +260,22 @@ def part_names(ck, thorough, tlc_results):
     for b in bad:
         c = cases[b - 1]
         e = json.loads(lines[b - 1])
-        groups[(c["cls"], e["res"])].append(b)
+        groups[(c["cls"] + ("_chain" if len(c["cells"]) > 9 else ""), e["res"])].append(b)
     for (cls, res), bs in sorted(groups.items()):
         b = bs[0]
         # re-run the rejected layout alone before reporting it
-        again = rerun_single(ck, "name", "%d %s" % (cases[b - 1]["cut"], " ".join(map(str, cases[b - 1]["cells"]))), "DnsNameTrace")
+        again = rerun_single(ck, "name", name_line(cases[b - 1]), "DnsNameTrace")
         if not again:
             ck.note("rejection of layout %s not repeated on re-run: not reported" % cases[b - 1]["cells"])
             continue
         rp = ck.save_replay("name_%s_%s" % (cls, res), {
-            "kind.txt": "name\n", "case.txt": "%d %s\n" % (cases[b - 1]["cut"], " ".join(map(str, cases[b - 1]["cells"]))),
+            "kind.txt": "name\n", "case.txt": name_line(cases[b - 1]) + "\n",
             "event.ndjson": lines[b - 1] + "\n", "model.json": cases[b - 1], "stderr.txt": stderr_excerpt(outp),
             "why.txt": "layout class %s (DnsNameOps.AbsClass) does not allow result %s; %d layouts of this kind\n" % (cls, res, len(bs))})
-        ck.violation("decodeName: layout of Abs class '%s' ended in '%s' (%d layouts, e.g. cells %s cut %d)" % (
-            cls, res, len(bs), cases[b - 1]["cells"], cases[b - 1]["cut"]), rp)
+        ex = cases[b - 1]
+        ck.violation("decodeName: layout of Abs class '%s' ended in '%s' (%d layouts, e.g. %s cut %d)" % (
+            cls, res, len(bs), ("cells %s" % ex["cells"]) if len(ex["cells"]) <= 9 else
+            ("compression chain %d pointers deep" % ((len(ex["cells"]) - 2) // 2)), ex["cut"]), rp)
     self_test_corrupt(ck, "DnsNameTrace", lines, corrupt_loop, "pointer loop reported as decoded", bad)
     self_test_corrupt(ck, "DnsNameTrace", lines, corrupt_wf, "well-formed name with a label missing", bad)
 
@@ -251,7 +286,8 @@ def rerun_single(ck, mode, case_line, spec, extra=()):
     open(cp, "w").write(case_line + "\n")
     outp = os.path.join(ck.work, "rerun.ndjson")
     run_drv("drv_dns" if mode == "cache" else "drv_dns_e2e.asan" if mode == "e2e" else "drv_dns.asan", mode, cp, outp, 1, extra)
-    v = vf.validate_trace(os.path.join(SPECDIR, spec + ".tla"), os.path.join(SPECDIR, spec + ".cfg"), outp, tag="C19_rerun")
+    v = vf.validate_trace(os.path.join(SPECDIR, spec + ".tla"), os.path.join(SPECDIR, spec + ".cfg"), outp, tag="C19_rerun",
+                          env=DEEP_ENV_VAL if spec == "DnsNameTrace" else None)
     if v.error:
         raise vf.Infra("re-run validation: " + v.error)
     return bool(re.search(r'<<"(BAD|DEV)"', v.out))
@@ -282,7 +318,13 @@ def part_records(ck, thorough, tlc_results):
     allc = tlc_json_prints(r)
     resp = sorted((c["plan"] for c in allc if c["kind"] == "resp"), key=lambda p: json.dumps(p, sort_keys=True))
     qry = sorted((c["plan"] for c in allc if c["kind"] == "query"), key=lambda p: json.dumps(p, sort_keys=True))
-    ck.note("DnsRecords: %s; %d response plans, %d query plans" % (r.summary(), len(resp), len(qry)))
+    chain_plans = [p for p in resp if p.get("fam") == "chain"]
+    if sorted(len(p["rrs"]) - 1 for p in chain_plans) != REC_CHAIN_DEPTHS:
+        raise vf.Infra("generator produced chain responses of depths %s, expected %s" % (
+            sorted(len(p["rrs"]) - 1 for p in chain_plans), REC_CHAIN_DEPTHS))
+    resp = [p for p in resp if p.get("fam") != "chain"]
+    ck.note("DnsRecords: %s; %d response plans + %d owner-name chains (depths %s), %d query plans" % (
+        r.summary(), len(resp), len(chain_plans), REC_CHAIN_DEPTHS, len(qry)))
     if not thorough:
         # quick: every well-formed single-record plan, a seeded sample of each malformation and of the two-record plans
         by = defaultdict(list)
@@ -300,6 +342,7 @@ def part_records(ck, thorough, tlc_results):
         qry = ck.rng.sample(qry, min(len(qry), 400))
     if thorough:
         part_e2e(ck, resp)
+    resp = resp + chain_plans          # the depth family is always executed
     plans = resp + qry
     kinds = Counter((p["mm"] if "mm" in p else "query") for p in plans)
     types = Counter(r_["ty"] for p in resp for r_ in p["rrs"])
@@ -640,7 +683,9 @@ def run(ck):
     thorough = ck.tier == "thorough"
     ck.make("drv_dns", "drv_dns.asan")
     ck.rule = ("names: every layout of N cells (alphabet End/Label/Junk/Ptr, N=%d) x {whole, last byte cut} enumerated by TLC "
-               "from DnsName.tla, non-trivial = contains a pointer or is not well-formed; records: every response plan of "
+               "from DnsName.tla + the generated compression chains 1, 2, 9, 10, 11, 12, 63, 126 pointers deep (open and closed "
+               "into a loop), non-trivial = contains a pointer or is not well-formed; records: owner-name chains of 1..40 "
+               "records (deep subdomain tree) and every response plan of "
                "DnsRecords.tla (type x section x owner form x RDATA-name form x value class x malformation; second record "
                "pointing into the first)%s, each also truncated at every length and byte-mutated; non-trivial = uses "
                "compression or a malformation; cache: every Get-terminated operation sequence of length 3 over %d questions "
@@ -653,8 +698,12 @@ def run(ck):
     jobs["name"] = dict(module_path=name_mod, cfg_path=name_cfg(ck, "name", n), workers=6, coverage=True, timeout=1200)
     jobs["Dev_NoVisited"] = dict(module_path=name_mod, cfg_path=name_cfg(ck, "name_nv", 3, ["Dev_NoVisited"]), workers=1)
     jobs["Dev_PtrBoundOffByOne"] = dict(module_path=name_mod, cfg_path=name_cfg(ck, "name_ob", 3, ["Dev_PtrBoundOffByOne"]), workers=1)
+    jobs["name_chain"] = dict(module_path=name_mod, cfg_path=name_cfg(ck, "name_chain", 0, chain=True), workers=2, env=DEEP_ENV)
+    jobs["Dev_MaxPointerJumps"] = dict(module_path=name_mod, cfg_path=name_cfg(ck, "name_mj", 0, ["Dev_MaxPointerJumps"], chain=True),
+                                       workers=1, env=DEEP_ENV)
     rec_cfg = os.path.join(ck.work, "rec.cfg")
-    vf.write_cfg(rec_cfg, constants={"MaxRR": 2}, invariants=["Realizable", "SectionsOrdered", "Emit"])
+    vf.write_cfg(rec_cfg, constants={"MaxRR": 2, "ChainDepths": "{%s}" % ", ".join(map(str, REC_CHAIN_DEPTHS))},
+                 invariants=["Realizable", "SectionsOrdered", "Emit"])
     jobs["rec"] = dict(module_path=os.path.join(SPECDIR, "DnsRecords.tla"), cfg_path=rec_cfg, workers=6, coverage=True, timeout=1200)
     mq = QUESTIONS[:2] + QUESTIONS[3:]      # exhaustive runs: 5 questions (two letter cases of one name, type, class, other name)
     m, c = cache_mc(ck, "cache_mc", 5 if thorough else 4, mq)
@@ -697,6 +746,8 @@ def run(ck):
         "a looping / out-of-range pointer inside an RDATA name counts as 'reported' when parse() throws or when the message "
         "is returned without a typed record built from that name (the code logs and skips the record)",
         "a forward compression pointer that leads to a proper name may be decoded exactly or rejected",
+        "the number of compression pointers followed is no criterion of well-formedness: RFC 1035 bounds a name by 255 octets / "
+        "127 labels, so chains up to 126 pointers deep must decode exactly (a jump cap below that rejects legal names)",
         "buildQuery may refuse a question (exception); what it builds must decode to the same questions "
         "(names compared label-wise without regard to letter case and the trailing root dot)",
         "cache: a hit is forbidden at or after insert + TTL (virtual clock, exact instants); a miss is always allowed; "
